@@ -348,11 +348,19 @@ func c11Servers(p *ana.Prog, r *ana.Result) {
 			good, leads := true, false
 			for _, ref := range ana.Referrers(bo) {
 				cmp, ok := ref.(*ssa.BinOp)
-				if !ok || cmp.Op != token.LSS || cmp.Y != ssa.Value(bo) {
+				if !ok {
 					good = false
 					continue
 				}
 				x := cmp.X
+				switch {
+				case cmp.Op == token.LSS && cmp.Y == ssa.Value(bo):
+				case cmp.Op == token.GTR && cmp.X == ssa.Value(bo):
+					x = cmp.Y // mirrored spelling: bound > i
+				default:
+					good = false
+					continue
+				}
 				okX := false
 				if k, isK := ana.ConstInt(x); isK && k == 0 {
 					okX = true
